@@ -18,7 +18,8 @@ fn len(disconnect: &Disconnect, properties: &Option<DisconnectProperties>) -> us
         let properties_len_len = len_len(properties_len);
         length += properties_len_len + properties_len;
     } else {
-        length += 1;
+        length += 1; // Disconnect Reason Code
+        length += 1; // Property Length (0), which write() emits
     }
 
     length
